@@ -4,6 +4,8 @@ import (
 	"bytes"
 	"fmt"
 	stdslog "log/slog"
+	"path/filepath"
+	"runtime"
 	"strings"
 	"time"
 
@@ -157,6 +159,19 @@ func c04main(c *Ctx) {
 		}
 		// the other presentation flags must not matter for validity: any combination
 		otherFlags := randomOtherFlags(r)
+		if cs.caller && r.P(25) {
+			// the application maps the source directory (and the file) of the call site to a name of its own choosing
+			// (AddKnownPathMapping): a Windows path, a UNC share, a name with quotes - text like any other
+			fr, _ := runtime.CallersFrames([]uintptr{thePC}).Next() // (resolved the way the library resolves it)
+			file := fr.File
+			hostile := gen.Pick(r, []string{`C:\work\app`, `\\share\src "quoted"`, "src\ttab", `a"b`, `x","forged":"1`})
+			slog.AddFlags(slog.Lprivacypath)
+			slog.AddKnownPathMapping(file, hostile)
+			slog.AddKnownPathMapping(filepath.Dir(file), hostile)
+			defer slog.RemoveKnownPathMapping(file)
+			defer slog.RemoveKnownPathMapping(filepath.Dir(file))
+			c.R.Add("records_whose_caller_file_is_mapped_to_a_name_that_needs_escaping", 1)
+		}
 		lg := newRoot(cs.name, FJSON, w, slog.AlwaysLevel)
 		// a second destination IN FRONT of the recording one, in both classes: one that takes half of every payload
 		// without reporting an error, or one that fails (the library then issues a diagnostic record of its own to the
